@@ -146,6 +146,8 @@ struct vk_child {
   int in_eof;
   uint32_t wrote[3];   /* pattern bytes written per fd */
   int werr[3];         /* errno of a failed W step */
+  uint32_t echoed;     /* bytes an E step has copied from stdin to stdout so far */
+  int closed_fd[3];    /* the helper closed its descriptor 0/1/2 */
   /* merged write order, for stderr->stdout: sequence of (fd,count) */
   struct { int fd; uint32_t n; } worder[64];
   int nworder;
@@ -184,7 +186,8 @@ void vk_advance(int ms);
 int vk_api_begin(const char *fmt, ...) __attribute__((format(printf, 1, 2)));
 void vk_api_end(long r);
 void vk_forked_side_becomes_helper(void) __attribute__((noreturn));
-int vk_sched_point(const char *label); /* explicit scheduling point between API calls */
+int vk_sched_point(const char *label);
+extern int vk_calls_in_api; /* intercepted calls since the API call began (livelock guard) */ /* explicit scheduling point between API calls */
 
 /* ledgers */
 int vk_fd_ledger_open_count(void);  /* descriptors the library owns right now */
